@@ -326,7 +326,35 @@ func TestVerifC15Block(t *testing.T) {
 			}
 			for s := 0; s < steps && !c.Violated(); s++ {
 				before := len(script)
-				switch op := c.Intn(8); {
+				switch op := c.Intn(11); {
+				case op == 8 && !closed && c.Chance(0.5): // Close right behind a push: a waiter has been signalled and has not resumed yet
+					id := next
+					next++
+					r := c15Push(q, id, c.Chance(0.3), false)
+					q.Close()
+					closed = true
+					if r == c15OK {
+						pushedOK[id] = true
+					}
+					script = append(script, fmt.Sprintf("push(%d)=%s+close", id, r))
+				case op == 9 && !closed && c.Chance(0.5): // Close right behind a pop that made room for a blocked pusher
+					q.queueMu.Lock()
+					l := q.queue.Len()
+					q.queueMu.Unlock()
+					if l == 0 {
+						continue
+					}
+					res, got := c15Pop(q, context.Background())
+					q.Close()
+					closed = true
+					if res == c15OK {
+						popped[got]++
+					}
+					script = append(script, fmt.Sprintf("pop=%s+close", res))
+				case op == 10: // virtual time passes (deadlines of waiting pops expire)
+					d := time.Duration(c.Range(1, 50)) * time.Millisecond
+					time.Sleep(d)
+					script = append(script, fmt.Sprintf("sleep(%v)", d))
 				case op == 7 && !closed: // a burst of non-blocking pushes with no pause in between (several waiters may have to wake)
 					k := c.Range(2, 4)
 					var rs []string
@@ -357,9 +385,16 @@ func TestVerifC15Block(t *testing.T) {
 					}
 				case op == 3 || op == 4: // pop with live context
 					w := &c15Waiter{kind: "pop"}
-					w.ctx, w.cancel = context.WithCancel(context.Background())
+					if c.Chance(0.3) {
+						// a context that ends by its deadline instead of a cancel call
+						d := time.Duration(c.Range(1, 40)) * time.Millisecond
+						w.ctx, w.cancel = context.WithTimeout(context.Background(), d)
+						script = append(script, fmt.Sprintf("pop!(deadline %v)", d))
+					} else {
+						w.ctx, w.cancel = context.WithCancel(context.Background())
+						script = append(script, "pop!")
+					}
 					waiters = append(waiters, w)
-					script = append(script, "pop!")
 					go func() { w.res, w.got = c15Pop(q, w.ctx); w.done.Store(true) }()
 				case op == 5: // cancel a blocked pop
 					if bo := blockedOf("pop"); len(bo) > 0 {
@@ -587,6 +622,9 @@ func TestVerifC15Stress(t *testing.T) {
 		var wg sync.WaitGroup
 		var stop atomic.Bool
 		var overCap atomic.Int32
+		// who could still wake a blocked caller: unfinished pushers and poppers, cancel goroutines, the closer
+		var unfinished, cancellers atomic.Int32
+		var closeDone atomic.Bool
 		// sampler: len <= capacity under the queue's own mutex
 		sdone := make(chan struct{})
 		go func() {
@@ -613,8 +651,10 @@ func TestVerifC15Stress(t *testing.T) {
 				pl.pause = append(pl.pause, c.Intn(4))
 			}
 			wg.Add(1)
+			unfinished.Add(1)
 			go func(p, client int) {
 				defer wg.Done()
+				defer unfinished.Add(-1)
 				for i := 0; i < perPusher; i++ {
 					for k := 0; k < pl.pause[i]; k++ {
 						runtime.Gosched()
@@ -639,16 +679,20 @@ func TestVerifC15Stress(t *testing.T) {
 		}
 		for p := 0; p < nPop; p++ {
 			wg.Add(1)
+			unfinished.Add(1)
 			go func(p, client int) {
 				defer wg.Done()
+				defer unfinished.Add(-1)
 				for i := 0; i < perPopper; i++ {
 					ctx, cancel := context.WithCancel(context.Background())
 					ca := cancelAfter[p*perPopper+i]
 					var cwg sync.WaitGroup
 					if ca >= 0 {
 						cwg.Add(1)
+						cancellers.Add(1)
 						go func() {
 							defer cwg.Done()
+							defer cancellers.Add(-1)
 							for k := 0; k < ca; k++ {
 								runtime.Gosched()
 							}
@@ -675,16 +719,56 @@ func TestVerifC15Stress(t *testing.T) {
 				runtime.Gosched()
 			}
 			rec(client, c15In{Op: "close"}, func() c15Out { q.Close(); return c15Out{Res: c15OK} })
+			closeDone.Store(true)
 		}(client)
-		// wall-clock watchdog: inconclusive, never a verdict
 		fin := make(chan struct{})
 		go func() { wg.Wait(); close(fin) }()
-		select {
-		case <-fin:
-		case <-time.After(60 * time.Second):
-			stop.Store(true)
-			c.Inconclusive("stress history did not finish within the watchdog (operations stuck after Close?)")
-			return
+		// A history that does not finish is judged on its structure, not on the clock: once Close has returned and no
+		// cancel goroutine is left, a caller parked in the queue's condition variable can only be woken by another
+		// pusher or popper; when every unfinished one is parked there (same goroutines in two dumps, nothing else
+		// inside the queue's code) nobody is left to wake them. The wall-clock watchdog stays inconclusive.
+		tick := time.NewTicker(500 * time.Millisecond)
+		defer tick.Stop()
+		watchdog := time.After(60 * time.Second)
+		lastStuck := ""
+	wait:
+		for {
+			select {
+			case <-fin:
+				break wait
+			case <-watchdog:
+				stop.Store(true)
+				c.Inconclusive("stress history did not finish within the watchdog")
+				return
+			case <-tick.C:
+				n := int(unfinished.Load())
+				if !closeDone.Load() || cancellers.Load() != 0 || n == 0 {
+					lastStuck = ""
+					continue
+				}
+				ids, kinds, others := c15Parked()
+				if others > 0 || len(ids) != n || int(unfinished.Load()) != n {
+					lastStuck = ""
+					continue
+				}
+				key := strings.Join(ids, ",")
+				if key != lastStuck {
+					lastStuck = key
+					continue
+				}
+				stop.Store(true)
+				c.Violatef(map[string]string{"kind": "blocked_after_close", "who": strings.Join(kinds, "+")},
+					"cap=%d, %d pushers, %d poppers: Close has returned, no cancellation is pending, and the %d callers that have not returned (%s) are all parked in the queue's condition variable: nobody is left to wake them",
+					capacity, nPush, nPop, n, strings.Join(kinds, ", "))
+				// let them go so that the process can continue with the next case
+				q.queueMu.Lock()
+				q.dataAvailable.Broadcast()
+				q.spaceAvailable.Broadcast()
+				q.queueMu.Unlock()
+				<-fin
+				<-sdone
+				return
+			}
 		}
 		stop.Store(true)
 		<-sdone
@@ -783,4 +867,42 @@ func c15Hist(ops []porcupine.Operation) string {
 		parts = append(parts, fmt.Sprintf("[%d-%d c%d %s id=%x u=%v b=%v -> %s %x]", o.Call, o.Return, o.ClientId, in.Op, in.ID, in.Urgent, in.Block, out.Res, out.ID))
 	}
 	return strings.Join(parts, " ")
+}
+
+
+// c15Parked looks at all goroutines: ids and kinds ("pop" / "push") of those parked in sync.Cond.Wait under
+// rpcQueue.Pop / rpcQueue.push, and the number of other goroutines currently inside the queue's code.
+func c15Parked() (ids, kinds []string, others int) {
+	buf := make([]byte, 1<<20)
+	for {
+		n := runtime.Stack(buf, true)
+		if n < len(buf) {
+			buf = buf[:n]
+			break
+		}
+		buf = make([]byte, 2*len(buf))
+	}
+	for _, g := range strings.Split(string(buf), "\n\n") {
+		nl := strings.IndexByte(g, '\n')
+		if nl < 0 || !strings.Contains(g, "(*rpcQueue).") {
+			continue
+		}
+		hdr := g[:nl]
+		kind := ""
+		switch {
+		case strings.Contains(g, "(*rpcQueue).Pop("):
+			kind = "pop"
+		case strings.Contains(g, "(*rpcQueue).push("):
+			kind = "push"
+		}
+		if kind != "" && strings.Contains(hdr, "[sync.Cond.Wait") {
+			ids = append(ids, strings.Fields(hdr)[1])
+			kinds = append(kinds, kind)
+		} else {
+			others++
+		}
+	}
+	sort.Strings(ids)
+	sort.Strings(kinds)
+	return
 }
